@@ -1522,6 +1522,14 @@ def task_name_binder_visitors():
                     g = [g for g in gets if z3.is_expr(g[1]) and z3.is_expr(nmv) and g[1].eq(nmv)]
                     ok = bool(g) and any(r[1] == g[0][3] for r in refs)
                     ctx.check(name + '/an-arbitrary-declared-name-is-attached-to-its-binding', ok, kind='inv.step')
+                    if z3.is_expr(nmv):
+                        # C09: the declaration binds the name in the module even if nothing is ever assigned: a reflective builtin declared global would no
+                        # longer be recognised at its uses, so the declaration itself must freeze the module
+                        reflective = z3.Or([nmv == z3.StringVal(x) for x in ('exec', 'eval', 'locals', 'globals', 'vars')])
+                        t = ctx.data(gobj).fields.get('tainted')
+                        tz = t if z3.is_expr(t) else z3.BoolVal(bool(t))
+                        ctx.check('C09/NameBinder.visit_Global/declaring-a-reflective-builtin-global-taints-the-module', z3.Implies(reflective, tz), kind='inv.step',
+                                  detail='`global eval` creates a module binding named eval; later eval(...) calls resolve to it and would not taint')
                 return
             nm = rd.fields.get(fld) if fld in rd.fields else interp.getattr(root, fld)
             binds = z3.BoolVal(True)
